@@ -49,4 +49,10 @@ PROPS = {
         quick=dict(runs=[dict(tests="^TestC18$", checks=400)], min_nontrivial=50),
         thorough=dict(runs=[dict(tests="^TestC18$", checks=2000, shards=16, timeout=3000)], min_nontrivial=3000),
     ),
+    "C08": dict(
+        rule="(1) the complete decision table {annotation absent/ours/foreign} x {ingressClassName absent/ours/foreign-controller/dangling} x {watch-without-class} x {class-precedence} = 48 rows, enumerated exhaustively against the real IsValidIngress / GetIngress / GetIngressList; (2) histories over worlds mixing all row kinds with transitions (annotation added/removed/changed, className switched, IngressClass created/deleted/controller changed) delivered through the real watcher predicates; after every reconciliation the routing of every request and the servers of every reached backend must equal the documented rules computed from the *selected* ingresses only (both directions). Non-trivial = the selection of some ingress flipped during the history (table rows: annotation and class both set); distinct by digest.",
+        assumptions=HAPCFG_ASSUMPTIONS + ["spec.defaultBackend is not generated here (known finding of C01)"],
+        quick=dict(runs=[dict(tests="^TestC08$", checks=250), dict(tests="^TestC08Table$", checks=1)], min_nontrivial=30),
+        thorough=dict(runs=[dict(tests="^TestC08$", checks=800, shards=16, timeout=3000), dict(tests="^TestC08Table$", checks=1)], min_nontrivial=1000),
+    ),
 }
